@@ -10,6 +10,7 @@ every subset of omitted defaults, explicit defaults, as function, as method and 
 kwargs)): same result or same error class; method-only never callable as function and vice versa."""
 import datetime
 import itertools
+import random
 import re
 import signal
 
@@ -395,6 +396,7 @@ def canon(v, depth=0):
 def evaluate(expr, ctx):
     old = signal.signal(signal.SIGALRM, _alarm)
     signal.alarm(4)
+    random.seed(20260928)                 # the library's random()/shuffle-like functions use python's global generator
     try:
         return ["ok", canon(expr(utils.NO_VALUE, ctx, sweep_engine()))]
     except Timeout:
@@ -622,17 +624,28 @@ def sweep_assignment(run, d, assignment, extras):
         results.append((label, r))
     if len(results) < 1:
         return 0
-    # nondeterministic functions (now, random, ...) are recognised by re-running the first form
-    again = fs[0][1]() if fs else None
-    if again is not None and results and again != results[0][1] and results[0][0] == fs[0][0]:
-        run.count("sweep:nondeterministic")
-        return 0
     if any(r == ["timeout"] for _, r in results):
         run.count("sweep:timeout")
         return 0
+    # non-deterministic library functions (random(), now(), ...): python's random module is re-seeded before every
+    # evaluation (see evaluate) and the FIRST spelling is evaluated three more times; if the same spelling does not
+    # reproduce its own result, only the outcome class and the type of the result are compared for this assignment
     ref_label, ref = results[0]
+    first = [th for label, th in fs if label == ref_label][0]
+    loose = any(first() != ref for _ in range(3))
+    if loose:
+        run.count("sweep:nondeterministic-assignments")
+        _nondeterministic.add(d.fd.name)
+
+    def differs(r):
+        if outcome_class(r) != outcome_class(ref):
+            return True
+        if r[0] != "ok":
+            return False
+        return (r[1][0] != ref[1][0]) if loose else (r != ref)
+
     for label, r in results[1:]:
-        if outcome_class(r) != outcome_class(ref) or (r[0] == "ok" and r != ref):
+        if differs(r):
             run.fail("violation", "two ways of passing the same arguments to a library function give different outcomes",
                      describe(d, assignment, extras, ref_label, ref, label, r))
             return len(results)
@@ -646,11 +659,14 @@ def sweep_assignment(run, d, assignment, extras):
             if r is None:
                 continue
             results.append((label, r))
-            if outcome_class(r) != outcome_class(ref) or (r[0] == "ok" and r != ref):
+            if differs(r):
                 run.fail("violation", "passing a default value explicitly differs from omitting it",
                          describe(d, assignment, extras, ref_label, ref, label + " explicit " + p.name, r, explicit=p.name))
                 return len(results)
     return len(results)
+
+
+_nondeterministic = set()
 
 
 def outcome_class(r):
@@ -740,6 +756,8 @@ def oracle(run, deep):
         swept += 1 if done else 0
     run.count("sweep:definitions", swept)
     run.note("registry sweep: %d definitions, %d swept" % (len(defs), swept))
+    run.note("non-deterministic library functions (same spelling twice gave different results; compared by outcome class and "
+             "result type only): %s" % (sorted(_nondeterministic) or "none"))
     composite_check(run, defs)
     convention_check(run)
 
@@ -819,8 +837,8 @@ def composite_check(run, defs):
             if g is None:
                 continue
             ref = host_forms(d, g[0], g[1], plain)
-            again = host_forms(d, g[0], g[1], plain)
-            if ref != again or any(r == ["timeout"] for _, r in ref):
+            if any(host_forms(d, g[0], g[1], plain) != ref for _ in range(2)) or any(r == ["timeout"] for _, r in ref):
+                run.count("composite:nondeterministic-or-timeout")
                 continue
             got = host_forms(d, g[0], g[1], host)
             run.count("composite:evaluations", len(got))
